@@ -305,6 +305,7 @@ func cmdCheck(args []string) int {
 				failures = append(failures, &Failure{Ob: o, Run: r, Name: o.Name, Reason: o.Result.Status})
 			}
 		}
+		var deadNow []*Obligation
 		for _, c := range r.Covers {
 			if *dump != "" && strings.Contains(c.Name, *dump) {
 				os.WriteFile("/tmp/govc-dump-cover.smt2", []byte(r.Enc.query(c, false)), 0644)
@@ -318,9 +319,24 @@ func cmdCheck(args []string) int {
 				coverLive++
 			}
 			newBase.Covers[c.Name] = verdict
-			if want, ok := base.Covers[c.Name]; verdict == "dead" && (!ok || want != "dead") && !*update {
-				failures = append(failures, &Failure{Ob: c, Run: r, Name: c.Name, Reason: "cover-dead",
-					Detail: "return became unreachable or the assumptions of this function are contradictory"})
+			if verdict == "dead" {
+				deadNow = append(deadNow, c)
+			}
+		}
+		// Cover names carry SSA block numbers, which harmless edits renumber: a dead return is an alarm only when the
+		// function has MORE dead returns than the baseline recorded for it.
+		baseDead := 0
+		for n, v := range base.Covers {
+			if v == "dead" && strings.HasPrefix(n, r.Name+"#cover:") {
+				baseDead++
+			}
+		}
+		if len(deadNow) > baseDead && !*update {
+			for _, c := range deadNow {
+				if base.Covers[c.Name] != "dead" {
+					failures = append(failures, &Failure{Ob: c, Run: r, Name: c.Name, Reason: "cover-dead",
+						Detail: "return became unreachable or the assumptions of this function are contradictory"})
+				}
 			}
 		}
 	}
